@@ -508,6 +508,9 @@ func (c *Ctx) finish(isReplay bool) int {
 	if isReplay {
 		return code
 	}
+	if s, _ := c.Ev.Coverage["samples"].([]interface{}); len(s) == 0 {
+		c.Ev.Coverage["samples"] = []interface{}{map[string]interface{}{"note": "no case was sampled in this run (see the tlc_runs and families entries)"}}
+	}
 	c.Ev.WallS = time.Since(c.Start).Seconds()
 	c.Ev.Violations = len(unknown)
 	c.cov("known_finding_cases", nKnownCases)
